@@ -11,11 +11,13 @@ generated text; the equivalence is then re-checked by Coq against what the code 
 Fail-closed: every construct that is not explicitly supported raises Unsupported; the caller reports the kernel as
 "no longer translatable" (a broken proof obligation), never guesses.
 
-usage: py2coq.py <repo root> <out dir> <target> [<target> ...]      targets: step6 where copeland scheme graph delta
+usage: py2coq.py <repo root> <out dir> <target> [<target> ...]      targets: step6 where copeland scheme graph delta moves initscore markov biokernel
 """
 import ast
 import os
 import sys
+
+sys.path.insert(0, os.path.dirname(os.path.abspath(__file__)))
 
 
 class Unsupported(Exception):
@@ -670,7 +672,125 @@ def gen_initscore(repo):
     return out
 
 
-TARGETS = {"initscore": gen_initscore, "markov": gen_markov, "moves": gen_moves, "step6": gen_step6, "where": gen_where, "copeland": gen_copeland, "scheme": gen_scheme, "graph": gen_graph, "delta": gen_delta}
+
+# ======================================================================================================================
+# imperative kernels translated statement by statement (tools/py2imp.py)
+import py2imp
+
+
+def _imp_guard(fn):
+    def g(repo):
+        try:
+            return fn(repo)
+        except py2imp.Unsupported as e:
+            raise Unsupported(str(e))
+    return g
+
+
+IMP_HEADER = ("(** GENERATED by /verif/tools/py2coq.py (py2imp) from {src} - do not edit *)\n"
+              "From Corankco Require Import {imports}.\nLocal Open Scope Z_scope.\n\n")
+
+
+# biokernel: every jitted kernel of the local search (bioconsert.py), whole functions: both searches, both moves,
+# _compute_delta_costs over the flattened cost matrix, and the loop nest of _improve_one_ranking
+@_imp_guard
+def gen_biokernel(repo):
+    path = os.path.join(repo, "corankco/algorithms/bioconsert/bioconsert.py")
+    tree = ast.parse(open(path).read())
+    out = IMP_HEADER.format(src="corankco/algorithms/bioconsert/bioconsert.py (the jitted kernels of the local search)",
+                            imports="Prelude Rank Markov BioConsert Imp")
+    fc = {0.001: "THR", 0.0: "0"}
+    for py, coq, arr in (("_search_to_change_bucket", "search_to_change_bucket_gen", "change"), ("_search_to_add_bucket", "search_to_add_bucket_gen", "add")):
+        imp = py2imp.Imp(arrays=[arr], float_consts=fc)
+        text, eff = imp.function(find_function(tree, py), coq, [("bucket_elem", "Z"), (arr, "list Z"), ("max_id_bucket", "Z")], [arr], "Z * list Z")
+        if not eff:
+            raise Unsupported(f"{py}: expected a loop")
+        out += text + "\n"
+    for py, coq in (("_change_bucket", "change_bucket_gen"), ("_add_bucket", "add_bucket_gen")):
+        imp = py2imp.Imp(arrays=["r"], float_consts=fc)
+        text, eff = imp.function(find_function(tree, py), coq, [("r", "list Z"), ("n", "Z"), ("element", "Z"), ("old_pos", "Z"), ("new_pos", "Z"),
+                                                               ("alone_in_old_bucket", "Z")], ["r"], "list Z")
+        if eff:
+            raise Unsupported(f"{py}: unexpected while loop")
+        out += text + "\n"
+    imp = py2imp.Imp(arrays=["ranking", "cost_matrix", "change", "add"], float_consts=fc)
+    text, eff = imp.function(find_function(tree, "_compute_delta_costs"), "compute_delta_costs_gen",
+                             [("ranking", "list Z"), ("target_element", "Z"), ("cost_matrix", "list Z"), ("bucket_elem", "Z"), ("change", "list Z"),
+                              ("add", "list Z"), ("n", "Z")], ["change", "add"], "Z * list Z * list Z")
+    if eff:
+        raise Unsupported("_compute_delta_costs: unexpected while loop")
+    out += text + "\n"
+
+    def np_max(i, n, env):
+        if len(n.args) == 1 and isinstance(n.args[0], ast.Name) and n.args[0].id in i.arrays:
+            return f"(vmax {i.expr(n.args[0], env)})"
+        py2imp.fail(n, "np_max")
+
+    def zeros(i, n, env):
+        if len(n.args) == 1 and len(n.keywords) == 1 and n.keywords[0].arg == "dtype":
+            return f"(zeros {i.expr(n.args[0], env)})"
+        py2imp.fail(n, "zeros")
+
+    C = py2imp.Callee
+    imp = py2imp.Imp(arrays=["r", "cost_matrix_1d", "change", "add"], float_consts=fc, builtins={"np_max": np_max, "zeros": zeros},
+                     callees={"_compute_delta_costs": C("compute_delta_costs_gen", ["=", 4, 5], False),
+                              "_search_to_change_bucket": C("search_to_change_bucket_gen", ["=", 1], True),
+                              "_search_to_add_bucket": C("search_to_add_bucket_gen", ["=", 1], True),
+                              "_change_bucket": C("change_bucket_gen", [0], False),
+                              "_add_bucket": C("add_bucket_gen", [0], False)})
+    text, eff = imp.function(find_function(tree, "_improve_one_ranking"), "improve_one_ranking_gen",
+                             [("r", "list Z"), ("cost_matrix_1d", "list Z"), ("n", "Z")], ["r"], "Z * list Z")
+    if not eff:
+        raise Unsupported("_improve_one_ranking: expected a loop")
+    out += text
+    return out
+
+
+
+# kemenymerge: KemenyComputingFactory.__merge (kemeny_score_computation.py), the whole function with its five while loops
+@_imp_guard
+def gen_kemenymerge(repo):
+    path = os.path.join(repo, "corankco/kemeny_score_computation.py")
+    tree = ast.parse(open(path).read())
+    out = IMP_HEADER.format(src="corankco/kemeny_score_computation.py (KemenyComputingFactory.__merge)", imports="Prelude Rank Markov BioConsert Imp")
+
+    def zeros(i, n, env):
+        if len(n.args) == 1 and len(n.keywords) == 1 and n.keywords[0].arg == "dtype":
+            return f"(zeros {i.expr(n.args[0], env)})"
+        py2imp.fail(n, "zeros")
+
+    imp = py2imp.Imp(arrays=["left", "right", "res", "s_1", "s_2"], builtins={"zeros": zeros})
+    text, eff = imp.function(find_method(tree, "KemenyComputingFactory", "__merge"), "merge_gen",
+                             [("left", "list Z"), ("right", "list Z"), ("s_1", "list Z"), ("s_2", "list Z")], ["s_1", "s_2"], "list Z * list Z * list Z")
+    if not eff:
+        raise Unsupported("__merge: expected loops")
+    out += text + "\n"
+    # the run-length walk that computes s_1[2] for one sorted bucket: the body of the loop over enumerate(r_prime) in
+    # __cost_by_ranking, up to the statement that adds its result to s_1[2]
+    cost = find_method(tree, "KemenyComputingFactory", "__cost_by_ranking")
+    loops = [n for n in cost.body if isinstance(n, ast.For) and isinstance(n.iter, ast.Call) and isinstance(n.iter.func, ast.Name)
+             and n.iter.func.id == "enumerate" and len(n.iter.args) == 1 and isinstance(n.iter.args[0], ast.Name) and n.iter.args[0].id == "r_prime"]
+    if len(loops) != 1 or not (isinstance(loops[0].target, ast.Tuple) and len(loops[0].target.elts) == 2 and isinstance(loops[0].target.elts[1], ast.Name)):
+        raise Unsupported("__cost_by_ranking: expected one loop over enumerate(r_prime)")
+    loop = loops[0]
+    arr = loop.target.elts[1].id
+    last = loop.body[-1]
+    if not (isinstance(last, ast.AugAssign) and isinstance(last.op, ast.Add) and isinstance(last.target, ast.Subscript)
+            and isinstance(last.target.value, ast.Name) and last.target.value.id == "s_1" and const_index(last.target.slice) == 2
+            and isinstance(last.value, ast.Name)):
+        raise Unsupported("__cost_by_ranking: the loop over r_prime must end with s_1[2] += <name>")
+    fn = ast.FunctionDef(name="_run_pairs", args=ast.arguments(posonlyargs=[], args=[ast.arg(arg=arr)], kwonlyargs=[], kw_defaults=[], defaults=[]),
+                         body=list(loop.body[:-1]) + [ast.Return(value=last.value)], decorator_list=[])
+    aliases = [s.target.id if isinstance(s, ast.AnnAssign) else s.targets[0].id for s in loop.body
+               if isinstance(s, (ast.AnnAssign, ast.Assign)) and isinstance(getattr(s, "value", None), ast.Name) and s.value.id == arr]
+    imp = py2imp.Imp(arrays=[arr] + aliases)
+    text, eff = imp.function(fn, "run_pairs_gen", [(arr, "list Z")], [], "Z")
+    if not eff:
+        raise Unsupported("run-length walk: expected loops")
+    return out + text
+
+
+TARGETS = {"initscore": gen_initscore, "markov": gen_markov, "moves": gen_moves, "step6": gen_step6, "where": gen_where, "copeland": gen_copeland, "scheme": gen_scheme, "graph": gen_graph, "delta": gen_delta, "biokernel": gen_biokernel, "kemenymerge": gen_kemenymerge}
 
 
 def main():
